@@ -92,6 +92,9 @@ type model struct {
 	// (0: not registered), and whether revision 2 was ever in effect
 	bdRev, bdReg int
 	bdEver2      bool
+	// bd2Since2: the replica bd2 was registered at some point since revision
+	// 2 was last in effect (its presence keeps the method's rules alive)
+	bd2Since2 bool
 }
 
 func newModel() *model { return &model{conns: map[string]bool{}, ever: map[string]bool{}, bdRev: 1} }
@@ -392,7 +395,11 @@ func (w *Worker) Run(h History, draws int) *Outcome {
 						m.bdReg = m.bdRev
 						if m.bdRev == 2 {
 							m.bdEver2 = true
+							m.bd2Since2 = m.conns["bd2"]
 						}
+					}
+					if prov == "bd2" && m.bdEver2 {
+						m.bd2Since2 = true
 					}
 					if prov == "local" {
 						m.local = true
@@ -475,9 +482,21 @@ func (w *Worker) Run(h History, draws int) *Outcome {
 					if s.OnlyFrom == "bd-rev2" {
 						onlyLive, onlyEver = m.conns["bd"] && m.bdReg == 2, m.bdEver2
 					}
+					// after a refresh back to revision 1 with no other
+					// provider of the service registered, the binding only
+					// revision 2 declares must be gone again (the refresh
+					// replaces the connection's routes)
+					onlyGone := s.OnlyFrom == "bd-rev2" && m.conns["bd"] && m.bdReg == 1 && !m.conns["bd2"] && m.bdEver2 && !m.bd2Since2
 					switch {
 					case onlyLive:
 						check("http", s.Binding, a)
+					case onlyGone:
+						out.NReq++
+						if ps := w.takePanics(); len(ps) > 0 {
+							fail(step, "http:"+ps[0].Key(), "request for %s panicked inside larking: %s", s.Path, ps[0].Value)
+						} else if a.Class != "unimplemented" {
+							fail(step, "http["+s.Binding+"]:route-of-replaced-revision-still-served", "GET %s ended with %s (%s) although the connection was refreshed to a revision that no longer declares this binding and no other provider is registered", s.Path, a.Class, a.Detail)
+						}
 					case !onlyEver:
 						out.NReq++
 						if ps := w.takePanics(); len(ps) > 0 {
